@@ -120,6 +120,11 @@ def build_dataset(rng, kind):
         mazes = [clone(m) for m in mazes]
     elif kind == "single":
         mazes = mazes[:1]
+    elif kind == "big":
+        # more than 127 / 255 items (3x3 dfs mazes: many natural exact and near duplicates)
+        big_cfg = MazeDatasetConfig(name="f", grid_n=3, n_mazes=int(rng.choice([130, 260])), maze_ctor=GENERATORS_MAP["gen_dfs"], seed=cfg.seed)
+        mazes = list(MazeDataset.generate(big_cfg, verbose=False).mazes)
+        n, ctor = 3, "gen_dfs"
     cfg2 = MazeDatasetConfig(name="f", grid_n=n, n_mazes=len(mazes), maze_ctor=GENERATORS_MAP[ctor], maze_ctor_kwargs=(dict(p=0.3) if ctor == "gen_dfs_percolation" else {}), seed=cfg.seed)
     return MazeDataset(cfg=cfg2, mazes=mazes)
 
@@ -200,6 +205,8 @@ def _job(job):
     seed, k = job
     rng = np.random.default_rng([seed, 8, k])
     kind = ["plain", "dups", "near", "equal_len", "dups", "near", "single"][k % 7]
+    if k % 125 == 60:
+        kind = "big"
     recs = []
     try:
         ds = build_dataset(rng, kind)
